@@ -162,11 +162,12 @@ fn default_params_case<const N: usize, const META: u32>(bound: u32, cap: usize) 
     let (spec, n) = spec_default_squeeze(META, N as u32, w0, h0, next_same);
     assert!(sq.sp.len() == n, "[C03] number of default squeeze steps == DefaultSqueezeParameters");
     let k: usize = kani::any();
-    kani::assume(k < n);
-    let got = &sq.sp[k];
-    assert!(got.horizontal == spec[k].horizontal, "[C03] default squeeze step k: direction (tall or square image: vertical first; wide: horizontal first)");
-    assert!(got.in_place == spec[k].in_place, "[C03] default squeeze step k: in_place (false only for the two chroma steps)");
-    assert!(got.begin_c == spec[k].begin_c && got.num_c == spec[k].num_c, "[C03] default squeeze step k: channel range");
+    if k < n {
+        let got = &sq.sp[k];
+        assert!(got.horizontal == spec[k].horizontal, "[C03] default squeeze step k: direction (tall or square image: vertical first; wide: horizontal first)");
+        assert!(got.in_place == spec[k].in_place, "[C03] default squeeze step k: in_place (false only for the two chroma steps)");
+        assert!(got.begin_c == spec[k].begin_c && got.num_c == spec[k].num_c, "[C03] default squeeze step k: channel range");
+    }
 
     // closed-form cross-check of the specification itself and of the code against it
     let chroma = if N - first > 2 && next_same { 2 } else { 0 };
@@ -198,39 +199,115 @@ fn default_params_keeps_explicit() {
     assert!((g.horizontal, g.in_place, g.begin_c, g.num_c) == keep, "[C03] explicit squeeze parameters are kept unchanged");
 }
 
-// Full 32-bit sizes, pre-reserved parameter vector (no reallocation in the model).
+// Vec::push model. `set_default_params` pushes a path-dependent number of steps; with the library `push` every call drags the
+// reallocation path into the formula and reading the vector back afterwards does not fit into 14 GB (measured: 3 channels,
+// sizes <= 64). The model is `push` for a vector whose capacity is known to suffice (it FAILS an assertion otherwise); the
+// harnesses pre-reserve the parameter vector (an empty Vec with spare capacity is indistinguishable, for the function under
+// contract, from the capacity-0 Vec the parser produces). Needs `#![feature(allocator_api)]` (crate_attrs in the registry).
+// Equivalence of model and library push: vec_push_real_contract / vec_push_model_contract (same deterministic postcondition).
+pub(crate) fn push_model<T, A: core::alloc::Allocator>(v: &mut Vec<T, A>, x: T) {
+    let l = v.len();
+    assert!(l < v.capacity(), "push_model: capacity suffices");
+    unsafe {
+        v.as_mut_ptr().add(l).write(x);
+        v.set_len(l + 1);
+    }
+}
+
+fn check_push(model: bool) {
+    let mut v: Vec<SqueezeParams> = Vec::with_capacity(4);
+    let l0: usize = kani::any();
+    kani::assume(l0 <= 3);
+    let init: [(bool, bool, u32, u32); 3] = kani::any();
+    let mut i = 0;
+    while i < 3 {
+        if i < l0 {
+            unsafe {
+                v.as_mut_ptr().add(i).write(SqueezeParams { horizontal: init[i].0, in_place: init[i].1, begin_c: init[i].2, num_c: init[i].3 });
+            }
+        }
+        i += 1;
+    }
+    unsafe { v.set_len(l0) };
+    let x: (bool, bool, u32, u32) = kani::any();
+    let xs = SqueezeParams { horizontal: x.0, in_place: x.1, begin_c: x.2, num_c: x.3 };
+    if model {
+        push_model(&mut v, xs);
+    } else {
+        v.push(xs);
+    }
+    let view = |s: &SqueezeParams| (s.horizontal, s.in_place, s.begin_c, s.num_c);
+    assert!(v.len() == l0 + 1 && view(&v[l0]) == x, "x is appended");
+    assert!((l0 < 1 || view(&v[0]) == init[0]) && (l0 < 2 || view(&v[1]) == init[1]) && (l0 < 3 || view(&v[2]) == init[2]), "earlier elements kept");
+    kani::cover!(l0 == 3);
+    kani::cover!(l0 == 0);
+}
+
 #[kani::proof]
-#[kani::unwind(34)]
-fn sq_default_params_full_gray() {
-    default_params_case::<1, 0>(u32::MAX, MAX_DEFAULT_STEPS);
+#[kani::unwind(5)]
+fn vec_push_real_contract() {
+    check_push(false);
+}
+
+#[kani::proof]
+#[kani::unwind(5)]
+fn vec_push_model_contract() {
+    check_push(true);
+}
+
+// Step-for-step equality, sizes <= 1024 (at most 2 + 7 + 7 steps).
+macro_rules! default_params_harness {
+    ($name:ident, $unwind:literal, $bound:expr, $cap:expr, $(($n:literal, $meta:literal)),+) => {
+        #[kani::proof]
+        #[kani::unwind($unwind)]
+        #[kani::stub(std::vec::Vec::push, push_model)]
+        fn $name() {
+            $(default_params_case::<$n, $meta>($bound, $cap);)+
+        }
+    };
+}
+default_params_harness!(sq_default_params_gray, 10, 1024, 20, (1, 0));
+default_params_harness!(sq_default_params_rgb, 10, 1024, 20, (3, 0));
+default_params_harness!(sq_default_params_meta, 10, 1024, 20, (4, 1), (3, 1)); // palette meta channel + 3 resp. 2 channels
+default_params_harness!(sq_default_params_rgba, 10, 1024, 20, (4, 0), (2, 0));
+// thorough: all 32-bit sizes (at most 2 + 29 + 29 steps)
+default_params_harness!(sq_default_params_full_rgb, 34, u32::MAX, MAX_DEFAULT_STEPS, (3, 0));
+default_params_harness!(sq_default_params_64k_rgb, 16, 65536, 32, (3, 0));
+
+#[kani::proof]
+#[kani::unwind(5)]
+fn sq_default_params_explicit() {
     default_params_keeps_explicit();
 }
 
-#[kani::proof]
-#[kani::unwind(34)]
-fn sq_default_params_full_rgb() {
-    default_params_case::<3, 0>(u32::MAX, MAX_DEFAULT_STEPS);
+/// Number of steps for ALL 32-bit sizes with the library `push` on the vector exactly as the parser leaves it (capacity 0):
+/// exercises the real growth path and the loop arithmetic (div_ceil, termination) on the full domain; the step contents are
+/// not read back here (see the note on push_model).
+fn default_params_count<const N: usize, const META: u32>() {
+    let mut chs = [Ch::any(); N];
+    let mut i = 0;
+    while i < N {
+        chs[i] = Ch::any();
+        i += 1;
+    }
+    let channels = mk_channels::<N>(&chs, META);
+    let mut sq = Squeeze { num_sq: 0, sp: Vec::new() };
+    sq.set_default_params(&channels);
+    let first = META as usize;
+    let (w0, h0) = (chs[first].w, chs[first].h);
+    let next_same = first + 1 < N && chs[first + 1].w == w0 && chs[first + 1].h == h0;
+    let chroma = if N - first > 2 && next_same { 2 } else { 0 };
+    assert!(sq.sp.len() == chroma + spec_halvings(w0) + spec_halvings(h0),
+        "[C03,C01] number of default squeeze steps = chroma steps + halvings of w and of h down to 8, for all 32-bit sizes");
+    kani::cover!(sq.sp.len() == 60);
+    kani::cover!(sq.sp.len() == 0);
 }
 
 #[kani::proof]
 #[kani::unwind(34)]
-fn sq_default_params_full_meta() {
-    default_params_case::<4, 1>(u32::MAX, MAX_DEFAULT_STEPS); // one meta channel (palette) + 3 channels
-    default_params_case::<3, 1>(u32::MAX, MAX_DEFAULT_STEPS); // one meta channel + 2 channels: no chroma steps
-}
-
-#[kani::proof]
-#[kani::unwind(34)]
-fn sq_default_params_full_rgba() {
-    default_params_case::<4, 0>(u32::MAX, MAX_DEFAULT_STEPS);
-    default_params_case::<2, 0>(u32::MAX, MAX_DEFAULT_STEPS);
-}
-
-// The parser's vector (capacity 0, grows by reallocation), sizes <= 64 (at most 2 + 3 + 3 steps).
-#[kani::proof]
-#[kani::unwind(6)]
-fn sq_default_params_realloc() {
-    default_params_case::<3, 0>(64, 0);
+fn sq_default_params_count_full() {
+    default_params_count::<3, 0>();
+    default_params_count::<1, 0>();
 }
 
 // ------------------------------------------------------------------------------------------------
@@ -532,6 +609,7 @@ fn rct_meta_contract() {
 // ------------------------------------------------------------------------------------------------
 #[kani::proof]
 #[kani::unwind(12)]
+#[kani::stub(std::vec::Vec::push, push_model)]
 fn sq_default_applied_rgb() {
     // 3 equal channels w x h, 9 <= w, h <= 16: chroma H, chroma V, then exactly one V and one H step over all three.
     let w: u32 = kani::any();
